@@ -147,10 +147,40 @@ structure Cand where
 
 def keysOf (s : State) : List Nat := (s.ids.map s.key).eraseDups.mergeSort
 
+def pcTag : Pc → String
+  | .idle => "i" | .epQueued => "q" | .epGranted => "g" | .semQueued => "Q" | .semGranted => "G" | .running => "r"
+  | .relSem => "s" | .relEp .ok => "e" | .relEp .ctx => "E" | .done .ok => "d" | .done .ctx => "D"
+
+def xevTag : XEv → String
+  | .arrive i p pre => s!"a{i}.{p}.{pre}" | .cancel i => s!"c{i}" | .finish i => s!"f{i}"
+
+/-- a key that identifies a candidate (state on the requests that arrived, what was reported, what is still to be issued).
+    Built by plain concatenation: the pretty-printer behind `repr` takes time exponential in the number of requests on such
+    nested data, which bounded the driver to histories of about 16 requests. -/
 def snapshot (c : Cand) (pend : List XEv) : String :=
   let s := c.s
-  toString (repr (s.ids.map (fun i => (i, s.pc i, s.key i, s.cancelled i)),
-    (keysOf s).map (fun k => (k, s.eps k)), s.semCur, s.semWaiters, c.reported, pend))
+  let nats (l : List Nat) := l.foldl (fun acc n => acc ++ toString n ++ ",") ""
+  let a := s.ids.foldl (fun acc i => acc ++ s!"{i}{pcTag (s.pc i)}{s.key i}{if s.cancelled i then "x" else "-"} ") ""
+  let b := (keysOf s).foldl (fun acc k => acc ++ (match s.eps k with
+    | none => s!"{k}/ " | some ep => s!"{k}/{ep.counter}/{nats ep.queue} ")) ""
+  a ++ "|" ++ b ++ "|" ++ toString s.semCur ++ "|" ++ nats s.semWaiters ++ "|" ++ nats c.reported ++ "|"
+    ++ pend.foldl (fun acc e => acc ++ xevTag e ++ " ") ""
+
+/-- The state's tables (`pc`, `key`, `cancelled`, `eps`) are functions built by nested updates; every event adds a layer and a
+    look-up walks all of them.  After each line the candidate is rebuilt over flat tables — the same function on every request
+    that has arrived and every key in use (requests that have not arrived are `idle`, uncancelled; histories never cancel a
+    request before its call) — so that a history of several hundred lines (a burst of 200 waiters drained one by one) stays
+    linear. -/
+def compact (s : State) : State :=
+  let m := s.ids.foldl max 0
+  if m > 100000 then s else
+  let idx := Array.range (m + 1)
+  let pcA := idx.map s.pc
+  let keyA := idx.map s.key
+  let cA := idx.map s.cancelled
+  let eps := (keysOf s).map (fun k => (k, s.eps k))
+  { s with pc := fun i => pcA.getD i .idle, key := fun i => keyA.getD i 0, cancelled := fun i => cA.getD i false,
+           eps := fun k => match eps.find? (·.1 == k) with | some e => e.2 | none => none }
 
 def observe (c : Cand) : ObsLine × Cand :=
   let s := c.s
@@ -219,7 +249,7 @@ def modelHistory (line : String) : String :=
               let k := snapshot q' []
               if !(seenKeys.contains k) then
                 seenKeys := k :: seenKeys
-                next := q' :: next
+                next := { q' with s := compact q'.s } :: next
         if next.isEmpty then
           return s!"diverges @{i} observed `{fmtObs o}` model-allows `{" / ".intercalate (seenObs.map fmtObs)}`"
         cands := next
